@@ -1228,7 +1228,10 @@ def run(ctx):
                        "UniformRandom, more sources, 3 iterations) over >= 8 radiation steps; sizes that cross the implementation's internal blocks, read from the source of the tree under test "
                        "(coverage.source_constants): single subgrids with a number of cells just below / exactly at / just above the snapshot writer's blocksize (thorough: above two blocks, "
                        "two such subgrids) for the RHD (HydroDensitySubGrid) and the photoionization (DensitySubGrid, Gadget writer) overloads, photon numbers PHOTONBUFFER_SIZE-1 / = / +1 "
-                       "(thorough 2x, 2x+1), all also under ASan. Quick: all runs on the normal binary + the stress/race/moving-source subset (15 configurations) on the "
+                       "(thorough 2x, 2x+1), all also under ASan; thread counts above the number of cores and above the standard library's small-size thresholds (17 and 33; thorough also 24 and 64) "
+                       "for both task-based modes; restart dumps with 0/1/2/3 configured backups, 5 dumps in the first process, more after each of two restarts, the restarted process with MORE "
+                       "threads (restart with fewer threads is a recorded finding with its own key); Utilities::argsort on 415 vectors of 0..100 elements with many ties in a sanitized harness "
+                       "(harness/c12_util.cpp). Quick: all runs on the normal binary + the stress/race/moving-source subset (15 configurations) on the "
                        "ASan/UBSan binary; thorough: every run on both + LeakSanitizer on the RHD locals + 4 runs under ThreadSanitizer (clang/libomp/Archer build; known unlocked accesses listed in "
                        "TSAN_KNOWN). A run that does not end within 60 s (75 s under ASan) is a violation and stops further runs of its kind; distinct = (binary, configuration)")
     if info is None:
@@ -1350,7 +1353,8 @@ MANIFEST = dict(
          "reads elsewhere and the exit status of whole runs — these are only searched by whole runs of all modes with unequal cells per subgrid in every ordering and pools small enough to wrap "
          "around, repeated 8-thread runs of the components with per-subgrid state on hundreds of subgrids, and radiation with diffuse field, subgrid copies and time-dependent sources over many steps "
          "(exit status, expected outputs, no hang on the normal binary; an ASan/UBSan build of the whole binary on a stress subset in the quick tier and on every run in the thorough tier; "
-         "ThreadSanitizer on four runs in the thorough tier). Subgrid sizes and photon numbers cross the writer's blocksize and PHOTONBUFFER_SIZE (both read from the source at run time). "
+         "ThreadSanitizer on four runs in the thorough tier). Subgrid sizes and photon numbers cross the writer's blocksize and PHOTONBUFFER_SIZE (both read from the source at run time); thread counts go up to 33 (64 in thorough); "
+         "restart chains cover 0-3 backups and more threads after the restart. "
          "A data race is only found when it shows in one of the repetitions or under ThreadSanitizer.",
     note="Trusted: Lean kernel + 3 axioms; textual translator tools/gen_c12_lifecycle.py (fails closed); uniform-vector abstraction; same condition text = same option; null dereferences excluded only under "
          "stated parameter-file assumptions (theorem rhdSimulation_null_source_distribution_is_dereferenced shows one is necessary: genuine crash). Whole-run part is a search with replayable parameter files, not a proof; "
